@@ -44,6 +44,9 @@ def timing_ok(W, H, s):
     fs = []
     for t in ('StoryDuration', 'TextTime', 'MediaTime'):
         fs.append(Imp(A(md != null, pl != null, H.find(pl, lit(t)) != null), is_float(text(H.find(pl, lit(t))))))
+    # ... and explicit start / end times are parseable where present ('parseable times where present')
+    for t in ('StoryStarted', 'StoryEnded'):
+        fs.append(Imp(A(md != null, pl != null, H.find(pl, lit(t)) != null), is_dt(text(H.find(pl, lit(t))))))
     return A(*fs)
 
 
@@ -176,7 +179,7 @@ class MergeContract(Contract):
         # returns the running order object it was given
         ret_ok = isinstance(ex.value, SObj) and ex.value.oid == cx.a['ro'].oid
         out.append(('returns_ro', z3.BoolVal(ret_ok)))
-        out += [(n, f) for n, f in ro_inv(W, ex.H, root, 'C14+RO_Inv.preserved')]
+        out += [(n, f) for n, f in ro_inv(W, ex.H, root, 'C14+C15+RO_Inv.preserved')]
         out += [(n, f) for n, f in ownership(ex.H, 'C13.ownership_preserved')]
         out += self.frame_clauses(cx, ex)
         if self.cls_name != 'RunningOrderEnd':
